@@ -143,7 +143,9 @@ def requested_format(tool, args):
     for i, a in enumerate(args):
         if a in ('-o', '--output') and i + 1 < len(args):
             outfile = args[i + 1]
-    if fmt is None and tool != 'pbgen' and outfile and outfile != '-':     # pbgen documents opb as its default format
+    if tool in ('cnfshuffle', 'kthlist2pebbling'):
+        fmt = None           # these two tools only speak DIMACS, whatever the output file is called
+    if fmt is None and tool == 'cnfgen' and outfile and outfile != '-':     # pbgen documents opb as its default format
         ext = os.path.splitext(outfile)[-1]
         fmt = {'.tex': 'latex', '.opb': 'opb'}.get(ext)
     default = 'opb' if tool == 'pbgen' else 'dimacs'
@@ -311,11 +313,11 @@ def strat_case(draw):
                 targs[draw(st.sampled_from(idx))] = draw(st.sampled_from(T_NUM_POOL))
         args = args + targs
     elif tool == 'cnfshuffle':
-        args = draw(st.lists(st.sampled_from(['-p', '-v', '-c', '-q', '--seed', '5', '-i', '@FILE:garbage', '@FILE:missing', '-o', '@OUT', '@DIR', '--bogus', '-h']), max_size=5))
+        args = draw(st.lists(st.sampled_from(['-p', '-v', '-c', '-q', '--seed', '5', '-i', '@FILE:garbage', '@FILE:missing', '-o', '@OUT', '@OUT.opb', '@OUT.tex', '@DIR', '--bogus', '-h']), max_size=5))
         stdin = draw(st.sampled_from(['p cnf 2 2\n1 -2 0\n2 0\n', 'p cnf 1 1\n3 0\n', '', 'garbage\n', 'p cnf 2 1\n1 2\n', 'c only comment\n',
                                       'p cnf 0 0\n', 'p cnf 2 2\n1 0\n', 'p cnf x y\n', '\x00\x01', 'p cnf 3 1\n1 2 3 0\n']))
     else:
-        args = draw(st.lists(st.sampled_from(['-q', '-i', '@FILE:garbage', '@FILE:missing', '@FILE:dir', '-o', '@OUT', '@DIR', '--bogus', '-h', 'xor', '2', 'x', 'lift', '0', 'none', 'shuffle', 'flip', 'maj', '3']), max_size=5))
+        args = draw(st.lists(st.sampled_from(['-q', '-i', '@FILE:garbage', '@FILE:missing', '@FILE:dir', '-o', '@OUT', '@OUT.opb', '@OUT.tex', '@DIR', '--bogus', '-h', 'xor', '2', 'x', 'lift', '0', 'none', 'shuffle', 'flip', 'maj', '3']), max_size=5))
         stdin = draw(st.sampled_from(['3\n1 : 0\n2 : 0\n3 : 1 2 0\n', '2\n2 : 1 0\n', '', 'garbage\n', '2\n1 : 2 0\n', '1\n', '0\n', 'c x\n',
                                       '3\n3 : 1 2\n', '2\n2 : 1 0\n2 : 1 0\n', '2\n2 : 5 0\n', '-1\n']))
     return {'tool': tool, 'args': args, 'stdin': stdin, 'rseed': draw(st.integers(0, 5))}
@@ -528,6 +530,10 @@ def enum_subprocess(tier):
     for text in (kth, 'garbage\n', ''):
         for a in ([], ['-q'], ['xor', '2'], ['-i', '-']):
             yield {'tool': 'kthlist2pebbling', 'args': a, 'stdin': text, 'rseed': 0}
+    # the DIMACS-only tools writing into files whose names look like another format
+    for ext in ('', '.cnf', '.opb', '.tex', '.dimacs'):
+        yield {'tool': 'cnfshuffle', 'args': ['--seed', '3', '-o', '@OUT' + ext], 'stdin': good, 'rseed': 1}
+        yield {'tool': 'kthlist2pebbling', 'args': ['-o', '@OUT' + ext], 'stdin': kth, 'rseed': 1}
     for a in (['peb', 'kthlist', '-'], ['kcolor', '2', 'kthlist', '-'], ['php', 'matrix', '-']):
         yield {'tool': 'cnfgen', 'args': a, 'stdin': '2 2\n1 0\n1 1\n' if 'matrix' in a else kth, 'rseed': 0}
     # a graph argument read from the standard input, in every format keyword (and without one), with text that is not such a graph
